@@ -101,8 +101,11 @@ def run_params(cname, params):
             raise
         except Exception as e:      # an exception of the real code that the contract did not expect
             tb = traceback.format_exc(limit=-6)
-            inner = traceback.extract_tb(e.__traceback__)[-1].filename
-            if not inner.startswith(REPO_SRC):
+            frames = [f.filename for f in traceback.extract_tb(e.__traceback__)]
+            last_verif = max([i for i, fn in enumerate(frames) if fn.startswith(ROOT)] or [-1])
+            through_repo = any(fn.startswith(REPO_SRC) for fn in frames[last_verif + 1:])
+            if not through_repo:
+                # raised by the contract / stub code itself (no repository frame below the last /verif frame)
                 raise ContractError("%s: %s\n%s" % (type(e).__name__, e, tb))
             ctx.fail("raises-only", info="%s: %s\n%s" % (type(e).__name__, e, tb))
 
@@ -300,7 +303,7 @@ def check_property(prop, tier, seed, jobs=None, only=None, verbose=False):
                                     "verdict": "proved", "backend": "z3", "s": ob["s"]})
             elif ob["verdict"] == "failed":
                 failed.append((r, ob))
-            else:
+            elif not (isinstance(ob["model"], str) and ob["model"].startswith("skipped:")):
                 undecided.append((r["contract"], r["params"], "%s: %s" % (ob["name"], ob["model"])))
     for cn, n in expected.items():
         got = per_contract.get(cn, {}).get("params", 0)
